@@ -349,10 +349,43 @@ def sym_paths(fn, bound=512):
             return None
         return subst_names(e, env) if env else e
 
-    def split_value(e, conds):
-        """[(conds, expr)] with top-level conditional expressions unfolded"""
+    def split_value(e, conds, depth=0):
+        """[(conds, expr)] with conditional expressions unfolded into paths: at the top level, and (one at a time, up to 3) where they are
+        an argument / operand inside the expression - f(a if c else b) is f(a) when c and f(b) otherwise"""
         if isinstance(e, ast.IfExp):
-            return split_value(e.body, conds + [(N(e.test), True, e.test)]) + split_value(e.orelse, conds + [(N(e.test), False, e.test)])
+            return split_value(e.body, conds + [(N(e.test), True, e.test)], depth) + split_value(e.orelse, conds + [(N(e.test), False, e.test)], depth)
+        if depth < 3 and e is not None:
+            inner = [n for n in ast.walk(e) if isinstance(n, ast.IfExp)]
+            # not inside lambdas / comprehensions (evaluated later or repeatedly)
+            deferred = {id(m) for n in ast.walk(e) if isinstance(n, (ast.Lambda, ast.ListComp, ast.SetComp, ast.DictComp, ast.GeneratorExp)) for m in ast.walk(n)}
+            inner = [n for n in inner if id(n) not in deferred]
+            if inner:
+                tgt = inner[0]
+
+                class R(ast.NodeTransformer):
+                    def __init__(self, arm):
+                        self.arm = arm
+
+                    def visit_IfExp(self, n):
+                        if n is tgt:
+                            return n.body if self.arm else n.orelse
+                        return self.generic_visit(n)
+                import copy as _copy
+                out_ = []
+                for arm in (True, False):
+                    e2 = _copy.deepcopy(e)
+                    # locate the copy of tgt by position in the walk
+                    idx = [i for i, n in enumerate(ast.walk(e)) if n is tgt][0]
+                    t2 = list(ast.walk(e2))[idx]
+
+                    class R2(ast.NodeTransformer):
+                        def visit_IfExp(self, n):
+                            if n is t2:
+                                return n.body if arm else n.orelse
+                            return self.generic_visit(n)
+                    e3 = R2().visit(e2)
+                    out_ += split_value(e3, conds + [(N(tgt.test), arm, tgt.test)], depth + 1)
+                return out_
         return [(conds, e)]
     for p in paths(node.body, bound=bound):
         states = [([], {}, [])]          # (conds, env, effects)
